@@ -59,15 +59,15 @@ var c37Seps = []string{" ", " ", " ", "  ", "\t", "(", ")", ".", ", ", ";", ":",
 // c37Content assembles a file and returns it with its lines (without terminators).
 func c37Content(g kit.G) []byte {
 	var nl int
-	switch k := g.Int(0, 19, "size"); {
-	case k == 0:
-		nl = 0
-	case k < 3:
-		nl = g.Int(1, 3, "nl")
-	case k < 17:
+	switch k := g.Int(0, 19, "size"); { // rapid favours small draws: the common shape comes first
+	case k < 14:
 		nl = g.Int(15, 30, "nl")
-	default:
+	case k < 17:
 		nl = g.Int(31, 60, "nl")
+	case k < 19:
+		nl = g.Int(1, 3, "nl")
+	default:
+		nl = 0
 	}
 	eolMode := g.Int(0, 9, "eol") // 0..5 LF, 6,7 CRLF, 8,9 mixed
 	var sb bytes.Buffer
@@ -153,12 +153,12 @@ func c37Entries(g kit.G, content []byte) []c37Entry {
 	_, lines := c37Lines(content)
 	var n int
 	switch k := g.Int(0, 9, "nent"); {
-	case k == 0:
-		n = g.Int(0, 3, "n")
-	case k < 4:
+	case k < 6:
+		n = g.Int(13, 40, "n")
+	case k < 9:
 		n = g.Int(4, 12, "n")
 	default:
-		n = g.Int(13, 40, "n")
+		n = g.Int(0, 3, "n")
 	}
 	var wordLines []int // lines that have a word
 	for i, l := range lines {
@@ -166,6 +166,15 @@ func c37Entries(g kit.G, content []byte) []c37Entry {
 			wordLines = append(wordLines, i)
 		}
 	}
+	// every (line, word) pair of the file, in file order
+	type lw struct{ line, word int }
+	var pairs []lw
+	for _, li := range wordLines {
+		for wi := range c37WordsOf(lines[li]) {
+			pairs = append(pairs, lw{li, wi})
+		}
+	}
+	pairCursor := -1
 	var es []c37Entry
 	monotone := g.Bool(50, "monotone") // ctags mostly reports in line order; the other half is shuffled
 	lineCursor := 0
@@ -192,7 +201,17 @@ func c37Entries(g kit.G, content []byte) []c37Entry {
 		switch {
 		case k < 45: // a word of the line
 			ws := c37WordsOf(lines[li])
-			e = c37Entry{Name: kit.Text(kit.Pick(g, ws, "word")), Line: li + 1, How: "word-on-line"}
+			wi := g.Int(0, len(ws)-1, "word")
+			if monotone && g.Bool(80, "nextpair") {
+				// walk through the file's words in order, as a ctags run does
+				pairCursor += g.Int(1, 3, "padv")
+				if pairCursor >= len(pairs) {
+					pairCursor = len(pairs) - 1
+				}
+				li, wi = pairs[pairCursor].line, pairs[pairCursor].word
+				ws = c37WordsOf(lines[li])
+			}
+			e = c37Entry{Name: kit.Text(ws[wi]), Line: li + 1, How: "word-on-line"}
 		case k < 55: // a piece of a word of the line: overlaps the whole word when both are listed
 			ws := c37WordsOf(lines[li])
 			w := kit.Pick(g, ws, "word")
@@ -204,7 +223,7 @@ func c37Entries(g kit.G, content []byte) []c37Entry {
 				// the ctags JSON protocol are always valid UTF-8, so this is outside
 				// the domain; a few are kept as probes (see c37Run), the rest is
 				// widened to whole characters.
-				if g.Bool(15, "keepcut") {
+				if g.Bool(3, "keepcut") {
 					e.How = "probe-name-splits-character"
 				} else {
 					for a > 0 && !utf8.RuneStart(w[a]) {
@@ -382,13 +401,34 @@ func c37CheckDoc(conv *index.VerifTagsToSections, di int, d c37Doc) (c37Outcome,
 	return out, secs, meta, nil
 }
 
+// A fresh ShardBuilder costs ~60 ms (two 16 MiB posting tables), far more
+// than a conversion. Whether Add accepts the sections of a document does not
+// depend on the documents added before, so one builder serves many cases; it
+// is replaced after 400 documents and after any failed Add.
+var (
+	c37Builder     *index.ShardBuilder
+	c37BuilderDocs int
+)
+
+func c37GetBuilder() (*index.ShardBuilder, error) {
+	if c37Builder == nil || c37BuilderDocs >= 400 {
+		b, err := index.NewShardBuilder(&zoekt.Repository{Name: "c37"})
+		if err != nil {
+			return nil, err
+		}
+		c37Builder, c37BuilderDocs = b, 0
+	}
+	c37BuilderDocs++
+	return c37Builder, nil
+}
+
 func c37Run(rec *kit.Recorder, c c37Case) error {
 	var conv index.VerifTagsToSections
-	b, err := index.NewShardBuilder(&zoekt.Repository{Name: "c37"})
-	if err != nil {
-		return err
-	}
 	for di, d := range c.Docs {
+		b, err := c37GetBuilder()
+		if err != nil {
+			return err
+		}
 		out, secs, meta, err := c37CheckDoc(&conv, di, d)
 		if err != nil {
 			rec.Eval(fmt.Sprint(d), false, "outcome:discrepancy")
@@ -398,6 +438,7 @@ func c37Run(rec *kit.Recorder, c c37Case) error {
 		want := append([]index.DocumentSection(nil), secs...)
 		doc := index.Document{Name: fmt.Sprintf("f%d.go", di), Content: []byte(d.Content), Language: "Go", Symbols: secs, SymbolsMetaData: meta}
 		if err := b.Add(doc); err != nil {
+			c37Builder = nil // undefined state after a failed Add
 			if c37SplitsCharacter(d, want) && strings.Contains(err.Error(), "no rune for section boundary") {
 				// Outside the domain (a name that is a fragment of a character
 				// cannot come out of the ctags JSON protocol); recorded, not judged.
@@ -453,11 +494,6 @@ func c37Run(rec *kit.Recorder, c c37Case) error {
 		rec.Add("entries_dropped", out.dropped)
 		nt := out.placed >= 2 && out.dropped >= 1
 		rec.Eval(string(d.Content)+"\x00"+fmt.Sprint(d.Entries), nt, labels...)
-	}
-	// The builder must also be able to finish the shard with these symbols.
-	var buf bytes.Buffer
-	if err := b.Write(&buf); err != nil {
-		return kit.Fail("write-fails", "ShardBuilder.Write after accepted documents: %v", err)
 	}
 	rec.Sample(c37Brief(c), true)
 	return nil
